@@ -1,22 +1,22 @@
 /-
-  Soundness of the enclosure oracle, part 11: the general (enclosure-based) path of `Spec.judgePow` (C18).
-  The oracle brackets |x|^y = exp(y·ln|x|): `l` encloses ln|x| (certified logarithm), `p = l.mul (I.pt y)`
-  encloses y·ln|x|, `powT p` (either the `nearOne` enclosure or `expI p`) encloses exp(y·ln|x|).
+  Soundness of the enclosure oracle, part 11: the general (enclosure-based) path of `Spec.judgePow` (C18),
+  without side hypotheses.  The oracle brackets |x|^y = exp(y·ln|x|): `l` encloses ln|x| (certified logarithm),
+  `p = l.mul (I.pt y)` encloses y·ln|x|, `powT? p` (the `nearOne` enclosure, or `expI p`, or `none` when `p` is
+  too wide for the guarded `expI`) encloses exp(y·ln|x|); the sign is `(−1)^y` for a negative base.
 
-  0. `RangeOk p` : p.hi − p.lo ≤ 20000 ∧ |p.lo| ≤ 10^60 ∧ |p.hi| ≤ 10^60 (explicit, checkable condition on the
-     computed interval under which `expI p` is proved sound; in the oracle |p| ≤ 40000·(1+10^-59))
-     `powT p`, `powExtra l ymag` : the enclosure and the extra relative tolerance used by `judgePow`
-  1. `powT_sound`      : v ∈ᵢ p → RangeOk p → Real.exp v ∈ₛ powT p
-     `pow_true_encl`   : xc ≠ 0, Encl.log xc xe = some l, LogOk xc xe, RangeOk (l.mul (I.pt Y)) →
-                         |X|^Y ∈ₛ powT (l.mul (I.pt Y))            (X = value of x, Y = value of y)
-  2. `pow_overflow`    : v ∈ᵢ p, p.lo > 40000 → 10^17000 < Real.exp v     (beyond the largest Decimal < 10^6146)
-     `pow_underflow`   : v ∈ᵢ p, p.hi < −40000 → Real.exp v < 10^-17000   (below the smallest Decimal 10^-6176)
-  3. `judgePow_general`: on the general path `judgePow` is: wrong sign → bad, else `withinUlps |r| (powT p) extra`
-     `pow_bad_finite`  : a `.bad` verdict on a finite non-zero result means (over the reals, for the magnitudes)
-        rn ≠ neg  ∨  rc·10^re < |X|^Y − 10^eT − extra·lo·10^k  ∨  |X|^Y + 10^eT + extra·hi·10^k < rc·10^re
-        ∨ 10^(Emax+41) ≤ |X|^Y ∨ lo·10^k < 10^(Emin−40) ∨ |re − k| > 120
+  0. `powP`, `powT?`, `powExtra`, `powNeg` : the quantities computed by `judgePow`
+  1. `powT_sound`      : powT? p = some t → v ∈ᵢ p → Real.exp v ∈ₛ t
+     `pow_true_encl`   : Encl.log xc xe = some l → powT? (powP l y) = some t → |X|^Y ∈ₛ t
+     `powExtra_ge`     : the extra tolerance of the code is at least the property's |Y|·(4·10^-37·|ln|X|| + 10^-55)
+  2. `intParity_some`  : intParity c e = some b → c·10^e is a natural number k, and b ↔ k odd
+     `rpow_sign`       : for a finite base X ≠ 0 and an exponent Y with `intParity = some b` (or X > 0):
+                         X^Y = (if powNeg then −1 else 1)·|X|^Y
+  3. `judgePow_cases`  : the general path of `judgePow` as a case distinction
+  4. `PowViolation x P r` and `pow_general_bad_sound`, `pow_overflow_bad_sound`, `pow_underflow_bad_sound`:
+     every `.bad` verdict of the general path is a statement about the real power `P = X^Y`
 -/
-import D128.Proofs.EnclosureJudge
+import D128.Proofs.EnclosureExact
+import Mathlib.Analysis.SpecialFunctions.Trigonometric.Basic
 set_option autoImplicit false
 
 namespace EnclPf
@@ -24,23 +24,27 @@ open Spec Spec.Encl SpecRound
 
 /-! ## 0. definitions -/
 
-/-- the condition under which `expI p` is proved sound -/
-def RangeOk (p : I) : Prop := p.hi - p.lo ≤ 20000 ∧ |p.lo| ≤ 10 ^ 60 ∧ |p.hi| ≤ 10 ^ 60
+/-- the enclosure of y·ln|x| -/
+def powP (l : I) (yn : Bool) (yc : Nat) (ye : Int) : I := l.mul (I.pt (Val.fin yn yc ye).toRat)
 
 /-- the enclosure of exp over `p` used by `judgePow` -/
-def powT (p : I) : Sci :=
-  if p.hi < pow10 (-40) && p.lo > -(pow10 (-40)) then ⟨⟨1 - pow10 (-39), 1 + pow10 (-39)⟩, 0⟩ else expI p
+def powT? (p : I) : Option Sci :=
+  if p.hi < pow10 (-40) && p.lo > -(pow10 (-40)) then some ⟨⟨1 - pow10 (-39), 1 + pow10 (-39)⟩, 0⟩ else expI p
 
 /-- the extra relative tolerance of `judgePow` -/
 def powExtra (l : I) (ymag : ℚ) : ℚ :=
-  ymag * (4 * pow10 (-37) * (if l.lo < 0 then -l.lo else l.hi) + pow10 (-55))
+  ymag * (4 * pow10 (-37) * (if -l.lo > l.hi then -l.lo else l.hi) + pow10 (-55))
+
+/-- the sign of the power computed by `judgePow` -/
+def powNeg (xn : Bool) (yc : Nat) (ye : Int) : Bool := xn && (intParity yc ye == some true)
 
 /-! ## 1. the enclosure of the power -/
 
-theorem powT_sound {p : I} {v : ℝ} (hv : v ∈ᵢ p) (hr : RangeOk p) : Real.exp v ∈ₛ powT p := by
-  unfold powT
-  split
+theorem powT_sound {p : I} {t : Sci} {v : ℝ} (h : powT? p = some t) (hv : v ∈ᵢ p) : Real.exp v ∈ₛ t := by
+  unfold powT? at h
+  split at h
   · rename_i hc
+    obtain rfl := Option.some.inj h
     simp only [Bool.and_eq_true, decide_eq_true_eq] at hc
     apply nearOne_sound
     have h1 : ((p.hi : ℚ) : ℝ) < ((pow10 (-40) : ℚ) : ℝ) := by exact_mod_cast hc.1
@@ -54,7 +58,7 @@ theorem powT_sound {p : I} {v : ℝ} (hv : v ∈ᵢ p) (hr : RangeOk p) : Real.e
     constructor
     · linarith [hv.1]
     · linarith [hv.2]
-  · exact expI_sound' p v hv hr.1 hr.2.1 hr.2.2
+  · exact expI_sound h hv
 
 theorem abs_rpow_eq_exp {x : ℝ} (hx : x ≠ 0) (y : ℝ) : |x| ^ y = Real.exp (Real.log x * y) := by
   rw [Real.rpow_def_of_pos (abs_pos.2 hx), Real.log_abs]
@@ -66,89 +70,403 @@ theorem X_ne_zero (n : Bool) {c : Nat} (hc0 : c ≠ 0) (e : Int) : X n c e ≠ 0
     positivity
   exact abs_pos.1 this
 
-theorem pow_true_encl (xn : Bool) (xc : Nat) (xe : Int) (yn : Bool) (yc : Nat) (ye : Int) (l : I)
-    (hc0 : xc ≠ 0) (hok : LogOk (xc : ℚ) xe) (hl : Encl.log (xc : ℚ) xe = some l)
-    (hr : RangeOk (l.mul (I.pt (Val.fin yn yc ye).toRat))) :
-    |X xn xc xe| ^ (X yn yc ye) ∈ₛ powT (l.mul (I.pt (Val.fin yn yc ye).toRat)) := by
+theorem powP_mem {xn : Bool} {xc : Nat} {xe : Int} (yn : Bool) (yc : Nat) (ye : Int) {l : I}
+    (hc0 : xc ≠ 0) (hl : Encl.log (xc : ℚ) xe = some l) :
+    (Real.log (X xn xc xe) * X yn yc ye) ∈ᵢ powP l yn yc ye :=
+  mem_mul (log_call_sound (n := xn) hc0 hl) (mem_pt _)
+
+theorem pow_true_encl (xn : Bool) (xc : Nat) (xe : Int) (yn : Bool) (yc : Nat) (ye : Int) (l : I) (t : Sci)
+    (hc0 : xc ≠ 0) (hl : Encl.log (xc : ℚ) xe = some l) (ht : powT? (powP l yn yc ye) = some t) :
+    |X xn xc xe| ^ (X yn yc ye) ∈ₛ t := by
   rw [abs_rpow_eq_exp (X_ne_zero xn hc0 xe)]
-  have hL := log_call_sound (n := xn) hc0 hok hl
-  exact powT_sound (mem_mul hL (mem_pt _)) hr
+  exact powT_sound ht (powP_mem yn yc ye hc0 hl)
 
-/-! ## 2. overflow / underflow verdicts -/
+/-- the tolerance used by the code is at least the tolerance the property grants -/
+theorem powExtra_ge {xn : Bool} {xc : Nat} {xe : Int} (yn : Bool) (yc : Nat) (ye : Int) {l : I}
+    (hc0 : xc ≠ 0) (hl : Encl.log (xc : ℚ) xe = some l) :
+    |X yn yc ye| * (4 * (10 : ℝ) ^ (-37 : Int) * |Real.log (X xn xc xe)| + (10 : ℝ) ^ (-55 : Int)) ≤
+      ((powExtra l (mag yc ye) : ℚ) : ℝ) ∧ 0 ≤ powExtra l (mag yc ye) := by
+  have hL := log_call_sound (n := xn) hc0 hl
+  have hle : |Real.log (X xn xc xe)| ≤ (((if -l.lo > l.hi then -l.lo else l.hi) : ℚ) : ℝ) := by
+    rw [abs_le]
+    split
+    · rename_i h
+      have : ((l.hi : ℚ) : ℝ) < ((-l.lo : ℚ) : ℝ) := by exact_mod_cast h
+      push_cast at this ⊢
+      constructor <;> linarith [hL.1, hL.2]
+    · rename_i h
+      have : ((-l.lo : ℚ) : ℝ) ≤ ((l.hi : ℚ) : ℝ) := by exact_mod_cast not_lt.1 h
+      push_cast at this
+      constructor <;> linarith [hL.1, hL.2]
+  have hY : |X yn yc ye| = ((mag yc ye : ℚ) : ℝ) := by rw [abs_X, mag_cast]
+  have hmag : (0 : ℚ) ≤ mag yc ye := by
+    unfold mag; exact mul_nonneg (by positivity) (pow10_pos ye).le
+  have hlnx : (0 : ℚ) ≤ (if -l.lo > l.hi then -l.lo else l.hi) := by
+    have : (0 : ℝ) ≤ (((if -l.lo > l.hi then -l.lo else l.hi) : ℚ) : ℝ) := le_trans (abs_nonneg _) hle
+    exact_mod_cast this
+  constructor
+  · unfold powExtra
+    rw [hY, Rat.cast_mul, Rat.cast_add, Rat.cast_mul, Rat.cast_mul, pow10_cast, pow10_cast]
+    apply mul_le_mul_of_nonneg_left _ (by exact_mod_cast hmag)
+    have : (0 : ℝ) ≤ 4 * (10 : ℝ) ^ (-37 : Int) := by positivity
+    push_cast
+    nlinarith
+  · unfold powExtra
+    have := pow10_pos (-37); have := pow10_pos (-55)
+    positivity
 
-theorem exp_40000_gt : (10 : ℝ) ^ (17000 : ℕ) < Real.exp 40000 := by
-  have h1 : (27 / 10 : ℝ) < Real.exp 1 := lt_trans (by norm_num) Real.exp_one_gt_d9
-  have h2 : Real.exp 40000 = (Real.exp 1 ^ 40) ^ 1000 := by
-    rw [← pow_mul, ← Real.exp_nat_mul]; norm_num
-  have h3 : (10 : ℝ) ^ 17 < Real.exp 1 ^ 40 :=
-    lt_of_lt_of_le (by norm_num : (10 : ℝ) ^ 17 < (27 / 10) ^ 40) (pow_le_pow_left₀ (by norm_num) h1.le 40)
-  rw [h2, show (17000 : ℕ) = 17 * 1000 from rfl, pow_mul]
-  exact pow_lt_pow_left₀ h3 (by positivity) (by norm_num)
+/-! ## 2. the sign -/
 
-theorem pow_overflow {p : I} {v : ℝ} (hv : v ∈ᵢ p) (h : p.lo > 40000) :
-    (10 : ℝ) ^ (17000 : ℕ) < Real.exp v := by
-  have h1 : ((40000 : ℚ) : ℝ) < ((p.lo : ℚ) : ℝ) := by exact_mod_cast h
-  push_cast at h1
-  exact lt_trans exp_40000_gt (Real.exp_lt_exp.2 (by linarith [hv.1]))
+theorem intParity_some {c : Nat} {e : Int} {b : Bool} (h : intParity c e = some b) :
+    ∃ k : ℕ, (c : ℝ) * (10 : ℝ) ^ e = (k : ℝ) ∧ (b = true ↔ k % 2 = 1) := by
+  unfold intParity at h
+  split at h
+  · rename_i hc
+    have hc : c = 0 := by simpa using hc
+    obtain rfl := Option.some.inj h
+    exact ⟨0, by simp [hc], by simp⟩
+  · split at h
+    · rename_i he
+      obtain rfl := Option.some.inj h
+      refine ⟨c * 10 ^ e.toNat, ?_, ?_⟩
+      · have : e = (e.toNat : ℤ) := (Int.toNat_of_nonneg he).symm
+        conv_lhs => rw [this]
+        rw [zpow_natCast]; push_cast; ring
+      · simp only [Bool.and_eq_true, beq_iff_eq]
+        constructor
+        · rintro ⟨he0, hc1⟩
+          rw [he0]; simpa using hc1
+        · intro hk
+          by_cases he0 : e = 0
+          · exact ⟨he0, by rw [he0] at hk; simpa using hk⟩
+          · exfalso
+            obtain ⟨j, hj⟩ : ∃ j, e.toNat = j + 1 := ⟨e.toNat - 1, by omega⟩
+            rw [hj, pow_succ] at hk
+            have : (c * (10 ^ j * 10)) % 2 = 0 := by
+              rw [show c * (10 ^ j * 10) = 2 * (c * 10 ^ j * 5) by ring]; exact Nat.mul_mod_right 2 _
+            omega
+    · rename_i he
+      simp only at h
+      split at h
+      · exact absurd h (by simp)
+      · split at h
+        · rename_i hdiv
+          have hdiv : c % 10 ^ (-e).toNat = 0 := by simpa using hdiv
+          obtain rfl := Option.some.inj h
+          refine ⟨c / 10 ^ (-e).toNat, ?_, by simp⟩
+          have he' : (10 : ℝ) ^ e = ((10 : ℝ) ^ (-e).toNat)⁻¹ := by
+            rw [← zpow_natCast, ← zpow_neg]; congr 1; omega
+          generalize (-e).toNat = j at *
+          have hc : c = 10 ^ j * (c / 10 ^ j) := by
+            have := Nat.div_add_mod c (10 ^ j); omega
+          rw [he']
+          have hcr : (c : ℝ) = (10 : ℝ) ^ j * ((c / 10 ^ j : ℕ) : ℝ) := by exact_mod_cast hc
+          have h10 : (10 : ℝ) ^ j ≠ 0 := by positivity
+          rw [eq_comm, ← div_eq_mul_inv, eq_div_iff h10]
+          linarith
+        · exact absurd h (by simp)
 
-theorem pow_underflow {p : I} {v : ℝ} (hv : v ∈ᵢ p) (h : p.hi < -40000) :
-    Real.exp v < 1 / (10 : ℝ) ^ (17000 : ℕ) := by
-  have h1 : ((p.hi : ℚ) : ℝ) < ((-40000 : ℚ) : ℝ) := by exact_mod_cast h
-  push_cast at h1
-  have h2 : Real.exp v < Real.exp (-40000) := Real.exp_lt_exp.2 (by linarith [hv.2])
-  have h3 : Real.exp (-40000) < 1 / (10 : ℝ) ^ (17000 : ℕ) := by
-    rw [Real.exp_neg, one_div]
-    exact inv_strictAnti₀ (by positivity) exp_40000_gt
-  exact lt_trans h2 h3
+theorem X_parity {yn : Bool} {yc : Nat} {ye : Int} {b : Bool} (h : intParity yc ye = some b) :
+    Real.cos (X yn yc ye * Real.pi) = if b then -1 else 1 := by
+  obtain ⟨k, hk, hb⟩ := intParity_some h
+  have hcos : Real.cos ((k : ℝ) * Real.pi) = if b then -1 else 1 := by
+    rw [Real.cos_nat_mul_pi]
+    cases b
+    · have : k % 2 = 0 := by
+        have := hb.not; simp at this; omega
+      simp only [Bool.false_eq_true, if_false]
+      exact Even.neg_one_pow (Nat.even_iff.2 this)
+    · have : k % 2 = 1 := hb.1 rfl
+      simp only [if_true]
+      exact Odd.neg_one_pow (Nat.odd_iff.2 this)
+  rw [X_eq, hk]
+  cases yn
+  · simpa using hcos
+  · simp only [if_true]
+    rw [neg_mul, Real.cos_neg]; exact hcos
+
+/-- the real power of a finite non-zero base: sign `(−1)^Y` for a negative base and an integer exponent -/
+theorem rpow_sign (xn : Bool) (xc : Nat) (xe : Int) (yn : Bool) (yc : Nat) (ye : Int) (hc0 : xc ≠ 0)
+    (hpar : xn = true → ∃ b, intParity yc ye = some b) :
+    (X xn xc xe) ^ (X yn yc ye) =
+      (if powNeg xn yc ye then -1 else 1) * |X xn xc xe| ^ (X yn yc ye) := by
+  have hApos : (0 : ℝ) < (xc : ℝ) * (10 : ℝ) ^ xe := by
+    have : (0 : ℝ) < (xc : ℝ) := by exact_mod_cast Nat.pos_of_ne_zero hc0
+    positivity
+  cases xn
+  · -- positive base
+    have hX : X false xc xe = (xc : ℝ) * (10 : ℝ) ^ xe := by rw [X_eq]; simp
+    rw [hX, abs_of_pos hApos]
+    simp [powNeg]
+  · obtain ⟨b, hb⟩ := hpar rfl
+    have hX : X true xc xe = -((xc : ℝ) * (10 : ℝ) ^ xe) := by rw [X_eq]; simp
+    have hneg : X true xc xe < 0 := by rw [hX]; linarith
+    rw [Real.rpow_def_of_neg hneg, X_parity hb, abs_rpow_eq_exp hneg.ne]
+    unfold powNeg
+    rw [hb]
+    cases b <;> simp
 
 /-! ## 3. the general path of `judgePow` -/
 
-theorem judgePow_general (m : Mode) (xn : Bool) (xc : Nat) (xe : Int) (yn : Bool) (yc : Nat) (ye : Int)
+/-- finite operands that are not a special/exact case: the base is non-zero, and a negative base comes with an
+    integer exponent -/
+theorem powSpecial_none_facts (m : Mode) (xn : Bool) (xc : Nat) (xe : Int) (yn : Bool) (yc : Nat) (ye : Int)
+    (h : powSpecial m (.fin xn xc xe) (.fin yn yc ye) = none) :
+    xc ≠ 0 ∧ (xn = true → ∃ b, intParity yc ye = some b) := by
+  unfold powSpecial at h
+  split at h
+  · exact absurd h (by simp)
+  split at h
+  · exact absurd h (by simp)
+  simp only [Val.isInf, Bool.and_false, Bool.false_eq_true, if_false] at h
+  split at h
+  · split at h <;> exact absurd h (by simp)
+  split at h
+  · split at h <;> exact absurd h (by simp)
+  rename_i hxc
+  refine ⟨by simpa using hxc, ?_⟩
+  split at h
+  · exact absurd h (by simp)
+  rename_i hp
+  intro hxn
+  subst hxn
+  simp only [Bool.true_and] at hp
+  cases hi : intParity yc ye with
+  | none => simp [hi] at hp
+  | some b => exact ⟨b, rfl⟩
+
+theorem judgePow_cases (m : Mode) (xn : Bool) (xc : Nat) (xe : Int) (yn : Bool) (yc : Nat) (ye : Int)
     (r : Val) (l : I)
     (hspec : powSpecial m (.fin xn xc xe) (.fin yn yc ye) = none)
-    (hl : Encl.log (xc : ℚ) xe = some l) (hy1 : ¬ ye > 45) (hy2 : ¬ ye < -6300)
-    (hp1 : ¬ (l.mul (I.pt (Val.fin yn yc ye).toRat)).lo > 40000)
-    (hp2 : ¬ (l.mul (I.pt (Val.fin yn yc ye).toRat)).hi < -40000) :
+    (hl : Encl.log (xc : ℚ) xe = some l) (hy1 : ¬ ye > 45) (hy2 : ¬ ye < -6300) :
     judgePow m (.fin xn xc xe) (.fin yn yc ye) r =
-      if !r.isNaN && r.neg != (xn && (intParity yc ye == some true)) then .bad "wrong sign"
-      else withinUlps (magVal r) (powT (l.mul (I.pt (Val.fin yn yc ye).toRat))) (powExtra l (mag yc ye)) := by
+      if (powP l yn yc ye).lo > 40000 then
+        (if r.same (.inf (powNeg xn yc ye)) then .ok else .bad "overflow must give Inf")
+      else if (powP l yn yc ye).hi < -40000 then
+        (if r.isZero && r.neg == powNeg xn yc ye then .ok else .bad "underflow must give zero")
+      else match powT? (powP l yn yc ye) with
+        | none => .undecided "no certified enclosure of the power (argument interval too wide)"
+        | some t =>
+          if !r.isNaN && r.neg != powNeg xn yc ye then .bad "wrong sign"
+          else withinUlps (magVal r) t (powExtra l (mag yc ye)) := by
   have hyv : (if yn then -(mag yc ye) else mag yc ye) = (Val.fin yn yc ye).toRat := (toRat_fin yn yc ye).symm
   unfold judgePow
-  simp only [hspec, hl, hy1, hy2, decide_false, Bool.or_self, if_false, Bool.false_eq_true, hyv, hp1, hp2]
+  simp only [hspec, hl, hy1, hy2, decide_false, Bool.or_self, if_false, Bool.false_eq_true, hyv]
   rfl
 
-theorem pow_bad_finite (m : Mode) (xn : Bool) (xc : Nat) (xe : Int) (yn : Bool) (yc : Nat) (ye : Int)
-    (rn : Bool) (rc : Nat) (re : Int) (l : I) (msg : String)
+/-! ## 4. meaning of the verdicts -/
+
+/-- **What a `.bad` verdict on the enclosure path of `judgePow` asserts** about the result `r` and the real
+    power `P = X^Y` (non-zero), with the property's relative tolerance `x = |Y|·(4·10^-37·|ln|X|| + 10^-55)`:
+    NaN; wrong sign (also of a zero or an infinity); more than one unit in the last place plus `x·|P|` from
+    `P`; finite although `|P| ≥ 10^(Emax+41)`; non-zero although `|P| < 10^(Emin−40)`; zero although `|P|`
+    exceeds the tolerance; infinite although `|P| < 10^(Emax+30)` or `|P|` plus the tolerance is below the
+    largest finite Decimal. -/
+def PowViolation (x : ℝ) (P : ℝ) : Val → Prop
+  | .nan _ _ => True
+  | .inf rn => (rn = true ↔ 0 < P) ∨ |P| < (10 : ℝ) ^ (Emax + 30) ∨
+      |P| + (10 : ℝ) ^ (ulpExp |P|) + x * |P| < (Cmax : ℝ) * (10 : ℝ) ^ Emax
+  | .fin rn 0 _ => (rn = true ↔ 0 < P) ∨ (10 : ℝ) ^ (ulpExp |P|) + x * |P| < |P|
+  | .fin rn (rc + 1) re =>
+      (rn = true ↔ 0 < P) ∨ (10 : ℝ) ^ (ulpExp |P|) + x * |P| < |X rn (rc + 1) re - P| ∨
+      (10 : ℝ) ^ (Emax + 41) ≤ |P| ∨ |P| < (10 : ℝ) ^ (Emin - 40)
+
+section
+variable (m : Mode) (xn : Bool) (xc : Nat) (xe : Int) (yn : Bool) (yc : Nat) (ye : Int) (l : I)
+
+/-- the property's extra relative tolerance -/
+noncomputable def propTol (xn : Bool) (xc : Nat) (xe : Int) (yn : Bool) (yc : Nat) (ye : Int) : ℝ :=
+  |X yn yc ye| * (4 * (10 : ℝ) ^ (-37 : Int) * |Real.log (X xn xc xe)| + (10 : ℝ) ^ (-55 : Int))
+
+theorem propTol_nonneg : 0 ≤ propTol xn xc xe yn yc ye := by unfold propTol; positivity
+
+theorem pow_general_bad_sound (r : Val) (t : Sci) (msg : String)
     (hspec : powSpecial m (.fin xn xc xe) (.fin yn yc ye) = none)
     (hl : Encl.log (xc : ℚ) xe = some l) (hy1 : ¬ ye > 45) (hy2 : ¬ ye < -6300)
-    (hp1 : ¬ (l.mul (I.pt (Val.fin yn yc ye).toRat)).lo > 40000)
-    (hp2 : ¬ (l.mul (I.pt (Val.fin yn yc ye).toRat)).hi < -40000)
-    (hc0 : xc ≠ 0) (hok : LogOk (xc : ℚ) xe) (hr : RangeOk (l.mul (I.pt (Val.fin yn yc ye).toRat)))
-    (hrc : rc ≠ 0)
-    (h : judgePow m (.fin xn xc xe) (.fin yn yc ye) (.fin rn rc re) = .bad msg) :
-    let t := powT (l.mul (I.pt (Val.fin yn yc ye).toRat))
-    let x := powExtra l (mag yc ye)
-    let T := |X xn xc xe| ^ (X yn yc ye)
-    rn ≠ (xn && (intParity yc ye == some true)) ∨
-    (rc : ℝ) * (10 : ℝ) ^ re < T - (10 : ℝ) ^ (eT t) - (x : ℝ) * (t.m.lo : ℝ) * (10 : ℝ) ^ t.k ∨
-    T + (10 : ℝ) ^ (eT t) + (x : ℝ) * (t.m.hi : ℝ) * (10 : ℝ) ^ t.k < (rc : ℝ) * (10 : ℝ) ^ re ∨
-    (10 : ℝ) ^ (Emax + 41) ≤ T ∨
-    (t.m.lo : ℝ) * (10 : ℝ) ^ t.k < (10 : ℝ) ^ (Emin - 40) ∨ (re - t.k > 120 ∨ re - t.k < -120) := by
-  intro t x T
-  have hT : T ∈ₛ t := pow_true_encl xn xc xe yn yc ye l hc0 hok hl hr
-  rw [judgePow_general m xn xc xe yn yc ye _ l hspec hl hy1 hy2 hp1 hp2] at h
-  simp only [Val.isNaN, Bool.not_false, Bool.true_and, Val.neg] at h
-  split at h
-  · rename_i hs
-    left; simpa using hs
-  · have hw : withinUlps (.fin false rc re) t x = .bad msg := h
-    have hlo := withinUlps_lo_pos (Or.inr ⟨msg, hw⟩)
-    rcases (withinUlps_fin_cases false rc re t x hrc hlo).1 msg hw with h1 | h1 | h1 | h1
-    · right; right; right; left; exact withinUlps_fin_overflow hT hlo h1
-    · right; right; right; right; left; exact withinUlps_fin_underflow hlo h1
-    · right; right; right; right; right; exact h1
-    · rcases withinUlps_fin_far hT h1 with h2 | h2
-      · right; left; exact h2
-      · right; right; left; exact h2
+    (hp1 : ¬ (powP l yn yc ye).lo > 40000) (hp2 : ¬ (powP l yn yc ye).hi < -40000)
+    (ht : powT? (powP l yn yc ye) = some t)
+    (h : judgePow m (.fin xn xc xe) (.fin yn yc ye) r = .bad msg) :
+    PowViolation (propTol xn xc xe yn yc ye) ((X xn xc xe) ^ (X yn yc ye)) r := by
+  obtain ⟨hc0, hpar⟩ := powSpecial_none_facts m xn xc xe yn yc ye hspec
+  set P := (X xn xc xe) ^ (X yn yc ye) with hP
+  set T := |X xn xc xe| ^ (X yn yc ye) with hTdef
+  have hT : T ∈ₛ t := pow_true_encl xn xc xe yn yc ye l t hc0 hl ht
+  have hTpos : 0 < T := Real.rpow_pos_of_pos (abs_pos.2 (X_ne_zero xn hc0 xe)) _
+  have hsign : P = (if powNeg xn yc ye then -1 else 1) * T := rpow_sign xn xc xe yn yc ye hc0 hpar
+  obtain ⟨hx1, hx0⟩ := powExtra_ge (xn := xn) yn yc ye hc0 hl
+  change propTol xn xc xe yn yc ye ≤ _ at hx1
+  have hxn := propTol_nonneg xn xc xe yn yc ye
+  set xq := powExtra l (mag yc ye) with hxq
+  set xp := propTol xn xc xe yn yc ye with hxp
+  have hPabs : |P| = T := by
+    rw [hsign]; cases powNeg xn yc ye <;> simp [abs_of_pos hTpos]
+  have hPpos : (0 < P) ↔ powNeg xn yc ye = false := by
+    rw [hsign]; cases powNeg xn yc ye <;> simp [hTpos, hTpos.le]
+  have hxT : xp * T ≤ (xq : ℝ) * T := mul_le_mul_of_nonneg_right hx1 hTpos.le
+  rw [judgePow_cases m xn xc xe yn yc ye r l hspec hl hy1 hy2, if_neg hp1, if_neg hp2, ht] at h
+  simp only at h
+  match r with
+  | .nan _ _ => trivial
+  | .inf rn =>
+    simp only [Val.isNaN, Bool.not_false, Bool.true_and, Val.neg] at h
+    show _ ∨ _ ∨ _
+    split at h
+    · rename_i hs
+      left
+      have hne : rn ≠ powNeg xn yc ye := by simpa using hs
+      rw [hPpos]; cases rn <;> cases hq : powNeg xn yc ye <;> simp_all
+    · have hw : withinUlps (.inf false) t xq = .bad msg := h
+      have hlo := withinUlps_lo_pos (Or.inr ⟨msg, hw⟩)
+      rw [hPabs]
+      have := pow_ulp_le hT hlo
+      rcases withinUlps_inf_bad hlo hx0 hT hw with h1 | h1
+      · right; left; exact h1
+      · right; right; linarith
+  | .fin rn 0 re =>
+    simp only [Val.isNaN, Bool.not_false, Bool.true_and, Val.neg] at h
+    show _ ∨ _
+    split at h
+    · rename_i hs
+      left
+      have hne : rn ≠ powNeg xn yc ye := by simpa using hs
+      rw [hPpos]; cases rn <;> cases hq : powNeg xn yc ye <;> simp_all
+    · have hw : withinUlps (.fin false 0 re) t xq = .bad msg := h
+      have hlo := withinUlps_lo_pos (Or.inr ⟨msg, hw⟩)
+      right
+      rw [hPabs]
+      have := pow_ulp_le hT hlo
+      have h1 := withinUlps_zero_bad hlo hx0 hT hw
+      linarith
+  | .fin rn (rc + 1) re =>
+    simp only [Val.isNaN, Bool.not_false, Bool.true_and, Val.neg] at h
+    show _ ∨ _ ∨ _ ∨ _
+    split at h
+    · rename_i hs
+      left
+      have hne : rn ≠ powNeg xn yc ye := by simpa using hs
+      rw [hPpos]; cases rn <;> cases hq : powNeg xn yc ye <;> simp_all
+    · rename_i hs
+      have hsame : rn = powNeg xn yc ye := by simpa using hs
+      have hw : withinUlps (.fin false (rc + 1) re) t xq = .bad msg := h
+      have hlo := withinUlps_lo_pos (Or.inr ⟨msg, hw⟩)
+      have hsign' : P = if powNeg xn yc ye then -T else T := by
+        rw [hsign]; split <;> ring
+      have habs : |X rn (rc + 1) re - P| = |((rc + 1 : ℕ) : ℝ) * (10 : ℝ) ^ re - T| := by
+        rw [hsign', X_signed, hsame]; exact abs_signed_sub _ _ _
+      rw [habs, hPabs]
+      right
+      have := pow_ulp_le hT hlo
+      rcases withinUlps_fin_bad (Nat.succ_ne_zero rc) hlo hx0 hT hw with h1 | h1 | h1
+      · left; linarith
+      · right; left; exact h1
+      · right; right; exact h1
+
+/-- overflow rule: `p.lo > 40000` ⇒ the power exceeds `10^17000`; a `.bad` verdict means `r` is not the
+    infinity of the right sign -/
+theorem pow_overflow_bad_sound (r : Val) (msg : String)
+    (hspec : powSpecial m (.fin xn xc xe) (.fin yn yc ye) = none)
+    (hl : Encl.log (xc : ℚ) xe = some l) (hy1 : ¬ ye > 45) (hy2 : ¬ ye < -6300)
+    (hp1 : (powP l yn yc ye).lo > 40000)
+    (h : judgePow m (.fin xn xc xe) (.fin yn yc ye) r = .bad msg) :
+    (10 : ℝ) ^ (17000 : ℕ) < |X xn xc xe| ^ (X yn yc ye) ∧ r.same (.inf (powNeg xn yc ye)) = false := by
+  obtain ⟨hc0, -⟩ := powSpecial_none_facts m xn xc xe yn yc ye hspec
+  rw [judgePow_cases m xn xc xe yn yc ye r l hspec hl hy1 hy2, if_pos hp1] at h
+  constructor
+  · rw [abs_rpow_eq_exp (X_ne_zero xn hc0 xe)]
+    have hv := powP_mem (xn := xn) yn yc ye hc0 hl
+    have h1 : ((40000 : ℚ) : ℝ) < (((powP l yn yc ye).lo : ℚ) : ℝ) := by exact_mod_cast hp1
+    push_cast at h1
+    exact exp_gt_of_ge (by linarith [hv.1])
+  · split at h
+    · exact absurd h (by simp)
+    · rename_i hne; simpa using hne
+
+/-- underflow rule: `p.hi < −40000` ⇒ the power is below `10^-17000`; a `.bad` verdict means `r` is not the
+    zero of the right sign -/
+theorem pow_underflow_bad_sound (r : Val) (msg : String)
+    (hspec : powSpecial m (.fin xn xc xe) (.fin yn yc ye) = none)
+    (hl : Encl.log (xc : ℚ) xe = some l) (hy1 : ¬ ye > 45) (hy2 : ¬ ye < -6300)
+    (hp1 : ¬ (powP l yn yc ye).lo > 40000) (hp2 : (powP l yn yc ye).hi < -40000)
+    (h : judgePow m (.fin xn xc xe) (.fin yn yc ye) r = .bad msg) :
+    |X xn xc xe| ^ (X yn yc ye) < 1 / (10 : ℝ) ^ (17000 : ℕ) ∧
+      (r.isZero && r.neg == powNeg xn yc ye) = false := by
+  obtain ⟨hc0, -⟩ := powSpecial_none_facts m xn xc xe yn yc ye hspec
+  rw [judgePow_cases m xn xc xe yn yc ye r l hspec hl hy1 hy2, if_neg hp1, if_pos hp2] at h
+  constructor
+  · rw [abs_rpow_eq_exp (X_ne_zero xn hc0 xe)]
+    have hv := powP_mem (xn := xn) yn yc ye hc0 hl
+    have h1 : (((powP l yn yc ye).hi : ℚ) : ℝ) < ((-40000 : ℚ) : ℝ) := by exact_mod_cast hp2
+    push_cast at h1
+    exact exp_lt_of_le (by linarith [hv.2])
+  · split at h
+    · exact absurd h (by simp)
+    · rename_i hne; simpa using hne
+
+end
+
+/-! ## 5. every `.bad` verdict of `judgePow` -/
+
+/-- **What a `.bad` verdict of `judgePow` asserts**, for all operands, results and modes:
+    * shortcut / special case: `r` differs from `powSpecial m x y` (the exact results of property C18);
+    * otherwise (finite operands, certified logarithm `l`): the exact power exceeds `10^17000` and `r` is not the
+      infinity of sign `(−1)^y`; or it is below `10^-17000` and `r` is not the zero of that sign; or
+      `PowViolation` with the property's tolerance. -/
+def PowBad (m : Mode) (x y r : Val) : Prop :=
+  (∃ want, powSpecial m x y = some want ∧ r.same want = false) ∨
+  (∃ xn xc xe yn yc ye, x = .fin xn xc xe ∧ y = .fin yn yc ye ∧ powSpecial m x y = none ∧
+    (((10 : ℝ) ^ (17000 : ℕ) < |X xn xc xe| ^ (X yn yc ye) ∧ r.same (.inf (powNeg xn yc ye)) = false) ∨
+     (|X xn xc xe| ^ (X yn yc ye) < 1 / (10 : ℝ) ^ (17000 : ℕ) ∧
+        (r.isZero && r.neg == powNeg xn yc ye) = false) ∨
+     PowViolation (propTol xn xc xe yn yc ye) ((X xn xc xe) ^ (X yn yc ye)) r))
+
+theorem judgePow_bad_sound (m : Mode) (x y r : Val) (msg : String)
+    (h : judgePow m x y r = .bad msg) : PowBad m x y r := by
+  cases hs : powSpecial m x y with
+  | some want =>
+    left
+    refine ⟨want, hs, ?_⟩
+    unfold judgePow at h
+    simp only [hs] at h
+    split at h
+    · exact absurd h (by simp)
+    · rename_i hne; simpa using hne
+  | none =>
+    right
+    match x, y with
+    | .fin xn xc xe, .fin yn yc ye =>
+      refine ⟨xn, xc, xe, yn, yc, ye, rfl, rfl, hs, ?_⟩
+      cases hl : Encl.log (xc : ℚ) xe with
+      | none =>
+        exfalso
+        unfold judgePow at h
+        simp only [hs, hl] at h
+        exact absurd h (by simp)
+      | some l =>
+        by_cases hy1 : ye > 45
+        · exfalso
+          unfold judgePow at h
+          simp only [hs, hl, hy1, if_true] at h
+          exact absurd h (by simp)
+        by_cases hy2 : ye < -6300
+        · exfalso
+          unfold judgePow at h
+          simp only [hs, hl, hy1, hy2, if_true, if_false] at h
+          exact absurd h (by simp)
+        by_cases hp1 : (powP l yn yc ye).lo > 40000
+        · left; exact pow_overflow_bad_sound m xn xc xe yn yc ye l r msg hs hl hy1 hy2 hp1 h
+        by_cases hp2 : (powP l yn yc ye).hi < -40000
+        · right; left; exact pow_underflow_bad_sound m xn xc xe yn yc ye l r msg hs hl hy1 hy2 hp1 hp2 h
+        right; right
+        cases ht : powT? (powP l yn yc ye) with
+        | none =>
+          exfalso
+          rw [judgePow_cases m xn xc xe yn yc ye r l hs hl hy1 hy2, if_neg hp1, if_neg hp2, ht] at h
+          exact absurd h (by simp)
+        | some t =>
+          exact pow_general_bad_sound m xn xc xe yn yc ye l r t msg hs hl hy1 hy2 hp1 hp2 ht h
+    | .nan _ _, _ => unfold judgePow at h; simp only [hs] at h; exact absurd h (by simp)
+    | .inf _, _ => unfold judgePow at h; simp only [hs] at h; exact absurd h (by simp)
+    | .fin _ _ _, .nan _ _ => unfold judgePow at h; simp only [hs] at h; exact absurd h (by simp)
+    | .fin _ _ _, .inf _ => unfold judgePow at h; simp only [hs] at h; exact absurd h (by simp)
 
 end EnclPf
